@@ -273,8 +273,8 @@ theorem C07_open_fails_iff_closed (cfg : Cfg) (ops : List Op) (ok : Bool) :
       ∀ e ∈ (step cfg (runOps cfg St.init ops) (.openPool ok)).2.evs, isRaised e = false) := by
   obtain ⟨hi, he⟩ := inv_runOps (cfg := cfg) ops St.init (inv_init cfg) rfl
   generalize runOps cfg St.init ops = s at *
-  have hok := (stepSt_ok (cfg := cfg) (m := ⟨s.base, s.pstate.code, s.tasks, true⟩) (.openPool ok) hi
-    ⟨rfl, rfl, rfl, fun h => by simp at h, he⟩ rfl).raise
+  have hok := (stepSt_ok (cfg := cfg) (m := ⟨s.base, s.pstate.code, s.tasks, true, openingIds s.base⟩)
+    (.openPool ok) hi ⟨rfl, rfl, rfl, fun h => by simp at h, he, fun x hx => mem_openingIds.2 hx⟩ rfl).raise
   have hstep : stepSt cfg s (.openPool ok) = openEnd (match get cfg s ok with
      | (s1, .sink sid _) => release cfg s1 sid
      | (s1, _) => s1) := rfl
@@ -301,6 +301,142 @@ theorem C07_open_fails_iff_closed (cfg : Cfg) (ops : List Op) (ok : Bool) :
     | cons a l =>
       rw [hf] at hok
       simp [obsOf, PState.code] at hok
+
+/-- **capacity is never leaked** — after every history (any configuration, any operation list):
+
+    * every connection the model's picture shows as *being opened* for a call is one whose
+      `Open()` is really pending: the specification's own bookkeeping (`Mon.connects`: a
+      `connecting` event seen, no `opened sid _` operation since), run over the model's history,
+      lists it — a call that was answered by its timer while connecting does not keep a
+      connection "held" beyond the end of the connect;
+    * the size counter is exactly: connections lent in the implementation's sense (a request
+      was handed to them and their release has not happened) + connects in flight + cached +
+      deferred hand-offs;
+    * every live connection is one of these: none is dropped on the floor. -/
+theorem C07_no_capacity_leak (cfg : Cfg) (ops : List Op) :
+    (∀ sid ∈ openingIds (runOps cfg St.init ops).base,
+        sid ∈ (monRun {} (comp.modelTrace cfg ops)).connects) ∧
+    (runOps cfg St.init ops).size =
+      (busyIds (runOps cfg St.init ops).base).length + (openingIds (runOps cfg St.init ops).base).length +
+        (runOps cfg St.init ops).cache.length + (runOps cfg St.init ops).tasks.length ∧
+    (∀ sid, isAlive (runOps cfg St.init ops).base sid = true →
+      sid ∈ busyIds (runOps cfg St.init ops).base ∨ sid ∈ openingIds (runOps cfg St.init ops).base ∨
+      sid ∈ (runOps cfg St.init ops).cache ∨ sid ∈ (runOps cfg St.init ops).tasks) := by
+  have hcpl := coupled_trace (cfg := cfg) ops St.init {} (inv_init cfg) coupled_init
+  obtain ⟨hi, he⟩ := inv_runOps (cfg := cfg) ops St.init (inv_init cfg) rfl
+  have hsz := C07_size_accounts_live cfg ops
+  have hv := view_of_nil he
+  refine ⟨fun sid hs => hcpl.conn sid (mem_openingIds.1 hs), ?_, ?_⟩
+  · rw [hsz, lentIds_split]
+  · intro sid hal
+    rcases hi.aliveHeld sid (by rw [hv]; exact hal) with h | h
+    · rw [hv] at h
+      rcases busy_or_opening h with h1 | h1
+      · exact Or.inl (mem_busyIds.2 h1)
+      · exact Or.inr (Or.inl (mem_openingIds.2 h1))
+    · simp only [held, Option.toList, List.append_nil, List.mem_append] at h
+      rcases h with h | h
+      · exact Or.inr (Or.inr (Or.inl h))
+      · exact Or.inr (Or.inr (Or.inr h))
+
+/-- when no hand-off is deferred: the size counter equals |lent (request handed over, not yet
+    released)| + |connects in flight| + |cached|, and every live connection is lent, being opened
+    or cached. -/
+theorem C07_no_leak_without_handoff (cfg : Cfg) (ops : List Op) (ht : (runOps cfg St.init ops).tasks = []) :
+    (runOps cfg St.init ops).size =
+      (busyIds (runOps cfg St.init ops).base).length + (openingIds (runOps cfg St.init ops).base).length +
+        (runOps cfg St.init ops).cache.length ∧
+    (∀ sid, isAlive (runOps cfg St.init ops).base sid = true →
+      sid ∈ busyIds (runOps cfg St.init ops).base ∨ sid ∈ openingIds (runOps cfg St.init ops).base ∨
+      sid ∈ (runOps cfg St.init ops).cache) := by
+  obtain ⟨_, h2, h3⟩ := C07_no_capacity_leak cfg ops
+  rw [ht] at h2 h3
+  refine ⟨by simpa using h2, fun sid hal => ?_⟩
+  rcases h3 sid hal with h | h | h | h
+  · exact Or.inl h
+  · exact Or.inr (Or.inl h)
+  · exact Or.inr (Or.inr h)
+  · simp at h
+
+/-- the end of a connect (`Open()` of connection `sid` completes, with either outcome) while the
+    picture shows `sid` as being opened: the blocked caller resumes and hands the request to the
+    connection — also when the caller has meanwhile been answered by its timer (`orphan`): then
+    the connection is held by a zombie call until the server answers or the connection dies.
+    Either way the connection is not being opened any more but lent in the implementation's
+    sense, and the size counter is unchanged: the connection is not lost. -/
+theorem C07_connect_end_hands_over (cfg : Cfg) (ops : List Op) (sid : Nat) (ok : Bool)
+    (ho : sid ∈ openingIds (runOps cfg St.init ops).base) :
+    ∃ c, (step cfg (runOps cfg St.init ops) (.opened sid ok)).2.evs = [.sent sid c] ∧
+      (((runOps cfg St.init ops).base.calls[c]? = some (.connecting sid) ∧
+        (step cfg (runOps cfg St.init ops) (.opened sid ok)).1.base.calls[c]? = some (.started sid)) ∨
+       ((runOps cfg St.init ops).base.calls[c]? = some (.orphan sid) ∧
+        (step cfg (runOps cfg St.init ops) (.opened sid ok)).1.base.calls[c]? = some (.zombie sid))) ∧
+      sid ∉ openingIds (step cfg (runOps cfg St.init ops) (.opened sid ok)).1.base ∧
+      sid ∈ busyIds (step cfg (runOps cfg St.init ops) (.opened sid ok)).1.base ∧
+      (step cfg (runOps cfg St.init ops) (.opened sid ok)).1.size = (runOps cfg St.init ops).size := by
+  obtain ⟨hi, he⟩ := inv_runOps (cfg := cfg) ops St.init (inv_init cfg) rfl
+  generalize runOps cfg St.init ops = s at *
+  exact opened_hands_over hi he ho
+
+/-- an operation `opened sid ok` never leaves `sid` "being opened" (whatever the picture was). -/
+theorem C07_connect_end_clears (cfg : Cfg) (ops : List Op) (sid : Nat) (ok : Bool) :
+    sid ∉ openingIds (step cfg (runOps cfg St.init ops) (.opened sid ok)).1.base := by
+  intro h
+  have h1 := mem_openingIds.1 h
+  have h2 := opened_clears cfg (runOps cfg St.init ops) sid ok
+  have : (step cfg (runOps cfg St.init ops) (.opened sid ok)).1.base =
+      (stepSt cfg (runOps cfg St.init ops) (.opened sid ok)).view := rfl
+  rw [this, h2] at h1
+  cases h1
+
+/-- the answer of the server on a connection held by a zombie call (its caller was answered by the
+    timer while the pool was still connecting) releases the connection — `_Release` is the first
+    thing that happens — and completes the call. -/
+theorem C07_zombie_answer_releases (cfg : Cfg) (ops : List Op) (c sid : Nat)
+    (hz : (runOps cfg St.init ops).base.calls[c]? = some (.zombie sid)) :
+    (∃ tail, (step cfg (runOps cfg St.init ops) (.respond c)).2.evs = .rel sid :: tail) ∧
+    (step cfg (runOps cfg St.init ops) (.respond c)).1.base.calls[c]? = some .done := by
+  obtain ⟨hi, he⟩ := inv_runOps (cfg := cfg) ops St.init (inv_init cfg) rfl
+  generalize runOps cfg St.init ops = s at *
+  exact zombie_answer hi he hz
+
+/-- a call holds its connection until the server answers: the answer on a connection held by a
+    started call or by a zombie call begins with `_Release` of that very connection (which caches
+    it, defers a hand-off, or closes it and gives the slot back — `C07_no_capacity_leak` holds
+    afterwards like after every operation). -/
+theorem C07_answer_releases_connection (cfg : Cfg) (ops : List Op) (c sid : Nat)
+    (hst : (runOps cfg St.init ops).base.calls[c]? = some (.started sid) ∨
+      (runOps cfg St.init ops).base.calls[c]? = some (.zombie sid)) :
+    ∃ tail, (step cfg (runOps cfg St.init ops) (.respond c)).2.evs = .rel sid :: tail := by
+  obtain ⟨hi, he⟩ := inv_runOps (cfg := cfg) ops St.init (inv_init cfg) rfl
+  exact answer_rel hi he hst
+
+/-- once traffic has stopped (every call complete — a zombie call is complete only when its
+    connection has been released — and no hand-off deferred): nothing is lent, the live connections
+    are exactly the cached ones that have not died, and the size counter counts exactly the cached
+    connections. -/
+theorem C07_quiescent_live_are_cached (cfg : Cfg) (ops : List Op)
+    (ht : (runOps cfg St.init ops).tasks = [])
+    (hd : allDone (runOps cfg St.init ops).base = true) :
+    lentIds (runOps cfg St.init ops).base = [] ∧
+    (∀ sid, isAlive (runOps cfg St.init ops).base sid = true → sid ∈ (runOps cfg St.init ops).cache) ∧
+    (runOps cfg St.init ops).size = (runOps cfg St.init ops).cache.length := by
+  obtain ⟨hi, he⟩ := inv_runOps (cfg := cfg) ops St.init (inv_init cfg) rfl
+  have hsz := C07_size_accounts_live cfg ops
+  have hv := view_of_nil he
+  have hnl := lent_nil_of_allDone hi (by rw [hv]; exact hd)
+  rw [hv] at hnl
+  have hl : lentIds (runOps cfg St.init ops).base = [] := by
+    rw [List.eq_nil_iff_forall_not_mem]
+    intro x hx
+    have := mem_lentIds.1 hx
+    rw [hnl x] at this; simp at this
+  refine ⟨hl, ?_, ?_⟩
+  · intro sid hal
+    rcases hi.aliveHeld sid (by rw [hv]; exact hal) with h | h
+    · rw [hv, hnl sid] at h; simp at h
+    · simpa [held, ht] using h
+  · rw [hsz, hl, ht]; simp
 
 /-- the model's history satisfies the executable specification — the predicate the harness
     evaluates on the implementation's observations — for every configuration and every
@@ -358,6 +494,25 @@ example :
       [.rel 0] ∧
     (step ⟨0, 2, 3⟩ (step ⟨0, 2, 3⟩ (runOps ⟨0, 2, 3⟩ St.init ops) (.opened 0 true)).1 (.respond 0)).1.tasks =
       [0] := by
+  decide
+
+/-- (1,1,1), the scenario of the leak: the only slot is taken by a connect, the caller's timer
+    fires while the pool is connecting, then the connect ends: the request is still handed to the
+    connection (held by a zombie call, lent in the implementation's sense), nothing is being
+    opened any more, and the specification's list of pending connects is empty; the server's answer
+    then returns the connection to the cache and the next request is served on it. -/
+example :
+    let ops := [Op.request true true, .timeout 0]
+    openingIds (runOps ⟨1, 1, 1⟩ St.init ops).base = [0] ∧
+    (monRun {} (comp.modelTrace ⟨1, 1, 1⟩ ops)).connects = [0] ∧
+    (runOps ⟨1, 1, 1⟩ St.init ops).base.calls[0]? = some (.orphan 0) ∧
+    (step ⟨1, 1, 1⟩ (runOps ⟨1, 1, 1⟩ St.init ops) (.opened 0 true)).2.evs = [.sent 0 0] ∧
+    (monRun {} (comp.modelTrace ⟨1, 1, 1⟩ (ops ++ [.opened 0 true]))).connects = [] ∧
+    busyIds (runOps ⟨1, 1, 1⟩ St.init (ops ++ [.opened 0 true])).base = [0] ∧
+    (runOps ⟨1, 1, 1⟩ St.init (ops ++ [.opened 0 true, .respond 0])).cache = [0] ∧
+    allDone (runOps ⟨1, 1, 1⟩ St.init (ops ++ [.opened 0 true, .respond 0])).base = true ∧
+    (step ⟨1, 1, 1⟩ (runOps ⟨1, 1, 1⟩ St.init (ops ++ [.opened 0 true, .respond 0])) (.request true false)).2.evs =
+      [.sent 0 1] := by
   decide
 
 /-- a first `Open()` whose connection fails to open: the pool shuts down, gives the slot back,
